@@ -111,10 +111,21 @@ async def sim_run_in_thread(self):
 class _SimTime:
     @staticmethod
     def monotonic_ns():
+        """Virtual nanoseconds, strictly increasing from call to call like a real clock.
+
+        Several events can share one virtual instant (zero-delay schedules); a real
+        monotonic clock never hands out the same nanosecond twice in such a sequence,
+        and `Scheduler.ran_concurrently` treats a tie as an overlap.
+        """
         w = _world()
         if w is None or w.loop is None:
             return _orig["time"].monotonic_ns()
-        return int(round(w.loop.time() * 1e9))
+        t = int(round(w.loop.time() * 1e9))
+        last = getattr(w, "_last_ns", 0)
+        if t <= last:
+            t = last + 1
+        w._last_ns = t
+        return t
 
     @staticmethod
     def monotonic():
